@@ -294,9 +294,13 @@ def _x1_lattice(prog, res):
         for a in ast.walk(st):
           if isinstance(a, ast.Assign) and isinstance(a.value, ast.BinOp) and \
               isinstance(a.value.op, ast.Add) and isinstance(
-                  a.value.right, ast.List) and dotted(a.targets[0]) == dotted(
-                      a.value.left):
-            adds[dotted(a.targets[0])] = a.value.right
+                  a.value.right, ast.List):
+            left = a.value.left
+            if isinstance(left, ast.Call) and dotted(left.func) in (
+                'list', 'tuple') and len(left.args) == 1:
+              left = left.args[0]      # list(x) + [..]
+            if dotted(a.targets[0]) == dotted(left):
+              adds[dotted(a.targets[0])] = a.value.right
           if isinstance(a, ast.AugAssign) and isinstance(a.op, ast.Add) and \
               isinstance(a.value, ast.List):
             adds[dotted(a.target)] = a.value
